@@ -86,7 +86,7 @@ fn generate(rng: &mut Rng) -> C15Sc {
         2 => Some((false, true)),
         _ => Some((true, true)),
     };
-    let limiter = if rng.chance(1, 5) { None } else { Some((*rng.pick(&[secs(1), secs(8)]), *rng.pick(&[1usize, 2, 3]))) };
+    let limiter = if rng.chance(1, 5) { None } else { Some((*rng.pick(&[secs(1), secs(8)]), *rng.pick(&[1usize, 2, 3, 1, 2, 3, 0]))) };
     let secret = Some(b"proxy-secret".to_vec());
     let lbs = ["10.0.0.1", "10.0.0.2", "2001:db8:aa::1"];
     let nlb = rng.range(1, 3) as usize;
@@ -186,6 +186,15 @@ fn generate(rng: &mut Rng) -> C15Sc {
             },
         }
         spec.close_on_end_ns = if kind == "header_never_completes" { None } else { Some(0) };
+        // a client with a valid header that hangs up after its first frame: admitted (and charged) all the same
+        let hangup = valid && rng.chance(1, 8);
+        if hangup {
+            spec.close_after = Some((1, rng.chance(1, 3)));
+        }
+        // handshake hosts with a forwarded-address trailer (as IP-forwarding proxies write them): client-chosen text
+        if rng.chance(1, 6) {
+            spec.host = (*rng.pick(&["mc.example.org\0203.0.113.77\0069a79f444e94726a5befca90e38aaf5", "lobby\02001:db8::77\0x", "h\010.0.0.1\0"])).to_string();
+        }
         // header and first frames may reach the server in one read
         spec.coalesce = rng.chance(1, 2);
         // a header may also trickle in: the connection is then admitted (and charged) when the header is
@@ -206,7 +215,7 @@ fn generate(rng: &mut Rng) -> C15Sc {
             c.spec.mute_after = None;
         }
         clients.push(c);
-        meta.push(Meta { valid, effective: effective.to_string(), kind: kind.to_string() });
+        meta.push(Meta { valid, effective: effective.to_string(), kind: if hangup { format!("{kind}+hangup") } else { kind.to_string() } });
     }
     let services = Services {
         auth: Script::always(Some(0), AuthRes::Claim),
@@ -296,6 +305,14 @@ pub fn check(sc: &C15Sc, out: &NetOutcome, rep: &mut RunReport) {
             }
             continue;
         }
+        // a client that hung up after its handshake frame asked for nothing: whether it was "served" does not show
+        // (it was admitted and charged all the same - the shadow limiter was fed with it)
+        if m.kind.ends_with("+hangup") {
+            if served && !admitted[i] {
+                rep.violate("served_iff_limiter_admits_effective_ip", format!("connection {i} ({}) received {} bytes although the limiter refuses it", m.kind, c.rx_total));
+            }
+            continue;
+        }
         if served != admitted[i] {
             rep.violate(
                 "served_iff_limiter_admits_effective_ip",
@@ -379,12 +396,16 @@ impl Check for C15 {
         if sc.meta.len() != sc.net.clients.len() || sc.net.stop_at_ns.is_some() || sc.net.cfg.timeout_ns < secs(2) || (sc.net.cfg.timeout_ns < secs(30) && sc.net.clients.iter().any(|c| !c.spec.cuts.is_empty())) {
             return RunReport::default();
         }
-        if sc.net.cfg.limiter.is_some_and(|(d, l)| d == 0 || l == 0) {
+        if sc.net.cfg.limiter.is_some_and(|(d, _)| d == 0) {
             return RunReport::default();
         }
         // the labels must still describe the clients (the shrinker may have altered either)
         for (c, m) in sc.net.clients.iter().zip(sc.meta.iter()) {
-            let consistent = match (sc.net.cfg.proxy, m.kind.as_str()) {
+            let hangup = m.kind.ends_with("+hangup");
+            if hangup != c.spec.close_after.is_some_and(|(k, _)| k == 1) {
+                return RunReport::default();
+            }
+            let consistent = match (sc.net.cfg.proxy, m.kind.trim_end_matches("+hangup")) {
                 (None, "no_proxy") => c.spec.preamble.is_none() && m.valid && m.effective == c.peer,
                 (None, _) => false,
                 (Some(_), "no_proxy") => false,
@@ -405,7 +426,7 @@ impl Check for C15 {
             if c.spec.cuts.len() > 1 || c.spec.cuts.iter().any(|k| k.at == 0 || k.at >= plen || !matches!(k.gate, Gate::Delay { ns } if ns % ms(50) >= ms(1) && ns % ms(50) <= ms(39))) {
                 return RunReport::default();
             }
-            if c.spec.script.is_some() != (m.kind == "truncated_then_eof") {
+            if c.spec.script.is_some() != (m.kind.trim_end_matches("+hangup") == "truncated_then_eof") {
                 return RunReport::default();
             }
         }
